@@ -174,22 +174,34 @@ def isPerm {α : Type} [BEq α] : List α → List α → Bool
 
 /-- The codec parameter instantiated from the implementation's compressed block. -/
 def codecFrom (block : Bytes) : Codec :=
-  { lz4 := fun _ => block, unlz4 := fun _ _ => none, snappy := fun _ => some block, unsnappy := fun _ => none }
+  { lz4 := fun _ => block, unlz4 := fun _ _ => none, snappy := fun _ => some block, unsnappy := fun _ => none,
+    snappyLen := fun _ => none }
 
 def noCodec : Codec := codecFrom []
 
 def implWords (impl : String) : List String := words impl
 
-/-- `biglen <what> <len>`: only the length conversion of the model is run (a 2 GiB `List UInt8` cannot be built). -/
+/-- `biglen <what> <len>`: a 2 GiB `List UInt8` cannot be built, so the model is run through its length-only
+abstraction `bigFieldErr` (proved equal to the encoder's answer for every byte string of that length:
+`Props.C09.bigField_sound`). -/
 def bigLen (what : String) (n : Nat) : String :=
-  match what with
-  | "query-statement" => if (writeIntLength n).isSome then "accepted" else "err " ++ errStr .queryStatementString
-  | "prepare-statement" => if (writeIntLength n).isSome then "accepted" else "err " ++ errStr .prepareStatementString
-  | "batch-statement" => if (writeIntLength n).isSome then "accepted" else "err " ++ errStr (.batchStmt 0 .statementString)
-  | "value" => if n < 2 ^ 31 then "accepted" else "err " ++ errStr .valueTooBig
-  | "paging-state" => if (writeIntLength n).isSome then "accepted" else "err " ++ errStr .queryBadPagingState
-  | "auth-response" => if (writeIntLength n).isSome then "accepted" else "err " ++ errStr .authResponse
-  | _ => "bad-case"
+  let w : Option BigField :=
+    match what with
+    | "query-statement" => some .queryStatement
+    | "prepare-statement" => some .prepareStatement
+    | "batch-statement" => some .batchStatement
+    | "value" => some .value
+    | "paging-state" => some .pagingState
+    | "execute-paging-state" => some .executePagingState
+    | "auth-response" => some .authResponse
+    | "adapter-value" => some .adapterValue
+    | _ => none
+  match w with
+  | none => "bad-case"
+  | some w =>
+    match bigFieldErr w n with
+    | none => "accepted"
+    | some e => "err " ++ errStr e
 
 /-- `frame k`: the model's frame given the codec; `body`: the model's uncompressed body. -/
 def finishWith (frame : Codec → Except Err Bytes) (body : Except Err Bytes) (comp : Option Compression)
